@@ -98,8 +98,12 @@ class KeepAlivePdu(AbstractFileDirectiveBase):
             struct_arg_tuple = ("!I", 4)
         else:
             struct_arg_tuple = ("!Q", 8)
-        if (len(data) - current_idx) < struct_arg_tuple[1]:
-            raise ValueError(f"invalid length {len(data)} for Keep Alive PDU")
+        # Only look at the PDU itself, without the CRC trailer and without trailing data.
+        end_of_params = keep_alive_pdu.packet_len
+        if keep_alive_pdu.pdu_file_directive.pdu_conf.crc_flag == CrcFlag.WITH_CRC:
+            end_of_params -= 2
+        if (end_of_params - current_idx) < struct_arg_tuple[1]:
+            raise ValueError(f"invalid length {end_of_params} for Keep Alive PDU")
         keep_alive_pdu.progress = struct.unpack(
             struct_arg_tuple[0],
             data[current_idx : current_idx + struct_arg_tuple[1]],
